@@ -41,6 +41,12 @@ CHECKS.update({
  'C17': ('symbolic execution of the real version helpers: integer components symbolic (linear integer arithmetic decides round trip and order preservation for all values in range), version strings with symbolic digits through the re model, PEP 440 objects replaced by a contract stub with arbitrary symbolic ordering keys',
          'Components 0..999, 1..5 of them; strings of 1..2 digits per component; predicates of 1..2 (thorough 3) comparators with symbolic operator characters and whitespace. PEP 440 parsing/ordering itself belongs to packaging (stub: arbitrary total pre-order key + major).'),
 })
+CHECKS.update({
+ 'C11': ('symbolic execution of the real validators: unbounded symbolic ints, symbolic strings through the int() and re models, scope/prefix-presence logic over contract stubs of netaddr with symbolic fault choices; verdicts and no-exception obligations decided by z3',
+         'Ints unbounded; strings up to 4 (6) characters for ports/ICMP, length 16..18 for MACs, 0..18 tail characters for scopes, 0..3 (4) for CIDR tails. netaddr is a contract stub (which strings are addresses is netaddr\'s business): agreement with the standard library parser is outside the claim. Known finding K1 exempted at its site.'),
+ 'C15': ('symbolic execution of the real EUI-64 helpers over byte-structured symbolic integers (all 2^128 addresses, all 2^48 MACs x networks), and of parse_host_port/escape_ipv6 over symbolic hosts and ports; netaddr replaced by integer-semantics contract stubs',
+         'Bit formulas checked against byte-wise references for every value; host names of 1..3 (5) symbolic characters, every port and default port. urlsplit/params are outside the claim.'),
+})
 NA = {
 }
 def main():
